@@ -122,7 +122,6 @@ impl MT110 {
 
         verify_parser_complete(&parser)?;
 
-
         Ok(MT110 {
             field_20,
             field_53a,
